@@ -59,6 +59,10 @@ pub fn run_oligo_in(recs: &[Vec<u8>], k: usize, norm: bool, threads: usize, deli
         bytes = e.finish().unwrap();
     }
     std::fs::write(&inp, bytes).unwrap();
+    if std::env::var("VERIF_STALE_OUTPUT").is_ok() {
+        let junk: String = (0..40).map(|_| "0.123456 0.123456 0.123456 0.123456 0.123456 0.123456 0.123456 0.123456 0.123456 0.123456 0.5\n").collect();
+        std::fs::write(&out, junk).unwrap();
+    }
     let d = delim.to_string();
     let (i2, o2) = (inp.clone(), out.clone());
     let r = guarded(move || {
@@ -218,6 +222,15 @@ pub fn c14(o: &Opts) -> Outcome {
             }
         }
     }
+    // two computers with different k in one process (smaller k first): tables must not be shared between them
+    {
+        let recs: Vec<Vec<u8>> = (0..4).map(|_| { let l = 30 + rng.below(60) as usize; random_seq(&mut rng, l, 5).iter().map(|&b| if b < 0x21 || b > 0x7e || b == b'>' { b'N' } else { b }).collect() }).collect();
+        for k in [3usize, 6, 4] {
+            cases += 1;
+            if let Some(mut w) = crate::p_cgr::c12_batch(&recs, k, 8, false, 2) { w.push(("sequence_of_k".into(), "3, 6, 4 in one process".into())); return Outcome { cases, witness: Some(w) }; }
+            if let Some(w) = c14_one(&recs, k, " ", false, 2) { return Outcome { cases, witness: Some(w) }; }
+        }
+    }
     // the mapped file must have exactly header + records x row bytes even when the output path already holds a larger file
     {
         let sc = Scratch::new("stale");
@@ -283,6 +296,17 @@ pub fn c05(o: &Opts) -> Outcome {
     if let Some(inp) = &o.input {
         let recs: Vec<Vec<u8>> = inp["records"].split('|').map(unshow).collect();
         return Outcome { cases: 1, witness: one(&recs, inp["k"].parse().unwrap(), inp["norm"] == "true", inp["threads"].parse().unwrap(), inp["mem"].parse().unwrap(), inp["header"] == "true", &inp["delim"]) };
+    }
+    // an output path that already holds a longer result of an earlier run: the rows are exactly the current records' rows
+    {
+        let recs: Vec<Vec<u8>> = (0..3).map(|i| format!("ACGTTGCA{}", "AC".repeat(i)).into_bytes()).collect();
+        for norm in [true, false] {
+            cases += 1;
+            std::env::set_var("VERIF_STALE_OUTPUT", "1");
+            let w = one(&recs, 2, norm, 2, 4 << 30, false, " ");
+            std::env::remove_var("VERIF_STALE_OUTPUT");
+            if let Some(mut w) = w { w.push(("stale_output".into(), "the output file existed before the run, holding 40 longer lines".into())); return Outcome { cases, witness: Some(w) }; }
+        }
     }
     // records without bases at the end of the input (and everywhere): one all-zero row each on both writer paths
     for recs in [vec![b"ACGTACGT".to_vec(), vec![], vec![]], vec![vec![], vec![]], vec![vec![], b"ACGGT".to_vec(), vec![]]] {
